@@ -4,6 +4,7 @@ CONSTANTS
   MaxSig = 3
   Devs = {}
   Gen = FALSE
-  OpenDevs = {"ErrDefaultsIgnore", "FailOpenBroken", "NoBodySubset"}
+  DocSubset = "no"
+  OpenDevs = {"ErrDefaultsIgnore", "FailOpenBroken", "NoBodySubset", "ForgedArKept"}
 CHECK_DEADLOCK FALSE
 POSTCONDITION Post
